@@ -37,6 +37,9 @@ type OpRec struct {
 // Wire is the Transport handed to rpc.NewConn.  Frames cross it as bytes, so
 // the two sides never share memory.
 type Wire struct {
+	// Sink, if set, receives every frame the peer-side builders (Push, SendCall, ...) produce instead of the
+	// Conn-facing queue; used to feed a byte-stream Pipe.
+	Sink func(b []byte)
 	mu       sync.Mutex
 	in       [][]byte // peer -> Conn
 	inSig    chan struct{}
@@ -212,6 +215,10 @@ func (w *Wire) HangUp() {
 
 // PushRaw delivers a frame (bytes of a marshalled message) to the Conn.
 func (w *Wire) PushRaw(b []byte) {
+	if w.Sink != nil {
+		w.Sink(b)
+		return
+	}
 	w.mu.Lock()
 	w.in = append(w.in, b)
 	w.mu.Unlock()
@@ -557,4 +564,160 @@ func summarize(rm rpccp.Message, raw []byte) Msg {
 		out.Which = fmt.Sprintf("other-%d", rm.Which())
 	}
 	return out
+}
+
+// ---- byte-stream pipe for the stream transports ------------------------------------------
+
+// PipeFault describes a fault on the byte stream.
+type PipeFault struct {
+	Write bool // fault on the k-th Write (else on the k-th Read)
+	Index int
+	Keep  int  // Write: accept this many bytes (mod len) before failing; Read: deliver this many bytes (mod available) then fail
+	EOF   bool // Read: fail with io.EOF instead of an error
+}
+
+// Pipe is an io.ReadWriteCloser under rpc.NewStreamTransport.  Everything the Conn writes is recorded; the peer
+// feeds bytes for the Conn to read.  It has no deadline methods.
+type Pipe struct {
+	mu       sync.Mutex
+	toConn   []byte
+	sig      chan struct{}
+	closed   bool
+	closedCh chan struct{}
+
+	Accepted   []byte // bytes accepted from the Conn
+	Writes     int
+	Reads      int
+	Fault      *PipeFault
+	Faulted    bool
+	AcceptedAtFault int
+	LaterWrites int // bytes accepted in Write calls after the fault fired
+	peerEOF    bool
+}
+
+func NewPipe() *Pipe { return &Pipe{sig: make(chan struct{}, 1), closedCh: make(chan struct{})} }
+
+func (p *Pipe) Write(b []byte) (int, error) {
+	p.mu.Lock()
+	defer p.mu.Unlock()
+	if p.closed {
+		return 0, errors.New("rpcsim: write on closed pipe")
+	}
+	i := p.Writes
+	p.Writes++
+	if p.Fault != nil && p.Fault.Write && p.Fault.Index == i && !p.Faulted {
+		n := 0
+		if len(b) > 0 {
+			n = p.Fault.Keep % len(b) // always short of the whole buffer
+		}
+		p.Accepted = append(p.Accepted, b[:n]...)
+		p.Faulted = true
+		p.AcceptedAtFault = len(p.Accepted)
+		return n, ErrInjected
+	}
+	if p.Faulted && p.Fault.Write {
+		p.LaterWrites += len(b)
+	}
+	p.Accepted = append(p.Accepted, b...)
+	return len(b), nil
+}
+
+func (p *Pipe) Read(b []byte) (int, error) {
+	for {
+		p.mu.Lock()
+		if p.closed {
+			p.mu.Unlock()
+			return 0, errors.New("rpcsim: read on closed pipe")
+		}
+		if len(p.toConn) > 0 {
+			i := p.Reads
+			p.Reads++
+			n := copy(b, p.toConn)
+			if p.Fault != nil && !p.Fault.Write && p.Fault.Index == i && !p.Faulted {
+				p.Faulted = true
+				n = p.Fault.Keep % (n + 1)
+				copy(b, p.toConn[:n])
+				p.toConn = nil
+				p.peerEOF = true
+				p.mu.Unlock()
+				if n > 0 {
+					return n, nil // the failure itself is reported by the next Read
+				}
+				if p.Fault.EOF {
+					return 0, io.EOF
+				}
+				return 0, ErrInjected
+			}
+			p.toConn = p.toConn[n:]
+			p.mu.Unlock()
+			return n, nil
+		}
+		if p.peerEOF {
+			eof := p.Fault != nil && p.Fault.EOF
+			p.mu.Unlock()
+			if eof || p.Fault == nil {
+				return 0, io.EOF
+			}
+			return 0, ErrInjected
+		}
+		p.mu.Unlock()
+		select {
+		case <-p.sig:
+		case <-p.closedCh:
+		}
+	}
+}
+
+func (p *Pipe) Close() error {
+	p.mu.Lock()
+	defer p.mu.Unlock()
+	if !p.closed {
+		p.closed = true
+		close(p.closedCh)
+	}
+	return nil
+}
+
+// Feed gives the Conn bytes to read.
+func (p *Pipe) Feed(b []byte) {
+	p.mu.Lock()
+	p.toConn = append(p.toConn, b...)
+	p.mu.Unlock()
+	select {
+	case p.sig <- struct{}{}:
+	default:
+	}
+}
+
+// HangUp ends the peer's side of the stream.
+func (p *Pipe) HangUp() {
+	p.mu.Lock()
+	p.peerEOF = true
+	p.mu.Unlock()
+	select {
+	case p.sig <- struct{}{}:
+	default:
+	}
+}
+
+func (p *Pipe) Snapshot() (accepted []byte, writes, reads int, faulted bool, atFault, later int, closed bool) {
+	p.mu.Lock()
+	defer p.mu.Unlock()
+	return append([]byte(nil), p.Accepted...), p.Writes, p.Reads, p.Faulted, p.AcceptedAtFault, p.LaterWrites, p.closed
+}
+
+// FrameBytes marshals an rpc message built by build.
+func FrameBytes(build func(m rpccp.Message) error) ([]byte, error) {
+	msg, seg, err := capnp.NewMessage(capnp.MultiSegment(nil))
+	if err != nil {
+		return nil, err
+	}
+	rm, err := rpccp.NewRootMessage(seg)
+	if err != nil {
+		return nil, err
+	}
+	if err := build(rm); err != nil {
+		return nil, err
+	}
+	return msg.Marshal()
 }
